@@ -822,3 +822,110 @@ def par_10(ctx, rep):
     ok = any('reversed(' in norm(lp.iter) and 'enumerate(' in norm(lp.iter) for lp in loops)
     rep.ob('PAR-10', PY, cs.qual, 'search runs from the top of the stack downwards', ok,
            'the recovery point is not the innermost open block')
+
+
+# ---------------------------------------------------------------------------
+# PAR-11: reserved-word lookups are keyed by the token's own text
+# ---------------------------------------------------------------------------
+def _stores_to(fn_node, name):
+    out = []
+    for n in walk_own(fn_node):
+        if isinstance(n, ast.Name) and n.id == name and isinstance(n.ctx, (ast.Store, ast.Del)):
+            out.append(n)
+    return out
+
+
+def _param_origin(f, expr, depth=0):
+    """expr is (an alias of) a parameter of f that f never rebinds -> parameter name, else None."""
+    if not isinstance(expr, ast.Name) or depth > 3:
+        return None
+    stores = _stores_to(f.node, expr.id)
+    if expr.id in f.params():
+        return expr.id if not stores else None
+    if len(stores) == 1:
+        st = getattr(stores[0], '_parent', None)
+        if isinstance(st, ast.Assign) and len(st.targets) == 1 and st.targets[0] is stores[0]:
+            return _param_origin(f, st.value, depth + 1)
+    return None
+
+
+def _token_field_index(f, expr):
+    """expr is a local bound exactly once, by unpacking a parameter of f (the token tuple) -> its index."""
+    if not isinstance(expr, ast.Name):
+        return None
+    stores = _stores_to(f.node, expr.id)
+    if len(stores) != 1:
+        return None
+    tup = getattr(stores[0], '_parent', None)
+    st = getattr(tup, '_parent', None)
+    if isinstance(tup, ast.Tuple) and isinstance(st, ast.Assign) and isinstance(st.value, ast.Name) \
+            and st.value.id in f.params() and not _stores_to(f.node, st.value.id):
+        return [e is stores[0] for e in tup.elts].index(True)
+    return None
+
+
+def par_11(ctx, rep):
+    rep.rule('PAR-11', 'every read of the reserved-word table in the parser is keyed by the token\'s own text: the key is a '
+                       'parameter the function never rebinds, and every call site passes the second field of the token '
+                       'tuple, unmodified (a normalised / case-folded / stripped key makes some non-keyword spell a keyword)')
+    sites = 0
+    for rel in (BASE, PY):
+        mod = ctx.prog.mod(rel)
+        for f in mod.funcs.values():
+            aliases = set()
+            for n in walk_own(f.node):
+                if isinstance(n, ast.Assign) and len(n.targets) == 1 and isinstance(n.targets[0], ast.Name) \
+                        and isinstance(n.value, ast.Attribute) and n.value.attr == 'reserved_syntax_strings':
+                    aliases.add(n.targets[0].id)
+
+            def is_table(e):
+                return (isinstance(e, ast.Attribute) and e.attr == 'reserved_syntax_strings') \
+                    or (isinstance(e, ast.Name) and e.id in aliases)
+            for n in walk_own(f.node):
+                key = None
+                if isinstance(n, ast.Subscript) and isinstance(n.ctx, ast.Load) and is_table(n.value):
+                    key = n.slice
+                elif isinstance(n, ast.Compare) and len(n.ops) == 1 and isinstance(n.ops[0], (ast.In, ast.NotIn)) \
+                        and is_table(n.comparators[0]):
+                    key = n.left
+                elif isinstance(n, ast.Call) and isinstance(n.func, ast.Attribute) and n.func.attr == 'get' and n.args \
+                        and is_table(n.func.value):
+                    key = n.args[0]
+                if key is None:
+                    continue
+                sites += 1
+                p = _param_origin(f, key)
+                if p is None:
+                    rep.ob('PAR-11', rel, f.qual, norm(n), False,
+                           'the key %s is not the unmodified text parameter of %s' % (norm(key), f.qual))
+                    continue
+                # call sites in the parser modules
+                idx = f.params().index(p)
+                callers = []
+                for rel2 in (BASE, PY):
+                    mod2 = ctx.prog.mod(rel2)
+                    for g in mod2.funcs.values():
+                        for c in walk_own(g.node):
+                            if not isinstance(c, ast.Call):
+                                continue
+                            is_meth = isinstance(c.func, ast.Attribute) and c.func.attr == f.name and f.cls is not None
+                            is_fn = isinstance(c.func, ast.Name) and c.func.id == f.name and f.cls is None
+                            if not (is_meth or is_fn):
+                                continue
+                            i = idx - 1 if is_meth else idx
+                            arg = None
+                            if i < len(c.args) and not any(isinstance(a, ast.Starred) for a in c.args[:i + 1]):
+                                arg = c.args[i]
+                            for kw in c.keywords:
+                                if kw.arg == p:
+                                    arg = kw.value
+                            callers.append((rel2, g, c, arg))
+                bad = [(r2, g, c, a) for r2, g, c, a in callers if a is None or _token_field_index(g, a) != 1]
+                for r2, g, c, a in bad:
+                    rep.ob('PAR-11', r2, g.qual, norm(c), False,
+                           'argument %s for the text parameter %r of %s is not the unmodified value field of the token'
+                           % (norm(a) if a is not None else '<missing>', p, f.qual))
+                rep.ob('PAR-11', rel, f.qual, norm(n), bool(callers) and not bad,
+                       'no call site of %s found in the parser modules' % f.qual if not callers else '',
+                       reason='key is parameter %r; %d call site(s) pass the token value field' % (p, len(callers)))
+    rep.minimum('PAR-11', 2, 'reads of reserved_syntax_strings in parser.py / python/parser.py')
